@@ -253,13 +253,7 @@ fn read_variant(m: &Model, subject: &Val, aux: &[(u64, Val)], tolerant: bool) ->
     } else {
         match schema::read_debug(m.name, &file, p0) {
             None => Err(format!("no dispatch for {}", m.name)),
-            Some(Ok(s)) => {
-                // catch-all dictionaries print one entry per line in insertion order, which depends on which entries
-                // were taken out before: compare order-free
-                let mut lines: Vec<&str> = s.split('\n').map(|l| l.trim_end_matches(',')).collect();
-                lines.sort();
-                Ok(Read::Ok(Canon::Null, lines.join("\n")))
-            }
+            Some(Ok(s)) => Ok(Read::Ok(Canon::Null, order_free(&s))),
             Some(Err(e)) => Ok(Read::Err(e)),
         }
     }
@@ -270,21 +264,124 @@ fn mentions_ref(text: &str, k: u64) -> bool {
     if text == "@carried" {
         return true;
     }
-    for pat in [format!("id: {},", k), format!("Ref({})", k)] {
-        if text.contains(&pat) {
-            return true;
-        }
+    if text.contains(&format!("Ref({})", k)) {
+        return true;
     }
-    let at = format!("@{}", k);
-    let mut from = 0;
-    while let Some(i) = text[from..].find(&at) {
-        let end = from + i + at.len();
-        if !text[end..].starts_with(|c: char| c.is_ascii_digit()) {
-            return true;
+    for at in [format!("@{}", k), format!("id: {}", k)] {
+        let mut from = 0;
+        while let Some(i) = text[from..].find(&at) {
+            let end = from + i + at.len();
+            if !text[end..].starts_with(|c: char| c.is_ascii_digit()) {
+                return true;
+            }
+            from = end;
         }
-        from = end;
     }
     false
+}
+
+/// Debug text with the members of every `{..}` group sorted: HashMap fields print in a per-instance random order and
+/// catch-all dictionaries in insertion order (which depends on which entries were taken out before).
+fn order_free(s: &str) -> String {
+    fn split_top(s: &str) -> Vec<String> {
+        let (mut depth, mut quote, mut esc) = (0i32, false, false);
+        let mut parts = vec![String::new()];
+        for c in s.chars() {
+            if quote {
+                parts.last_mut().unwrap().push(c);
+                if esc {
+                    esc = false;
+                } else if c == '\\' {
+                    esc = true;
+                } else if c == '"' {
+                    quote = false;
+                }
+                continue;
+            }
+            match c {
+                '"' => quote = true,
+                '{' | '[' | '(' => depth += 1,
+                '}' | ']' | ')' => depth -= 1,
+                ',' | '\n' if depth == 0 => {
+                    parts.push(String::new());
+                    continue;
+                }
+                _ => {}
+            }
+            parts.last_mut().unwrap().push(c);
+        }
+        parts.into_iter().map(|p| p.trim().to_string()).filter(|p| !p.is_empty()).collect()
+    }
+    fn norm(s: &str) -> String {
+        // find the first top-level bracket group, normalise inside, continue after it
+        let chars: Vec<char> = s.chars().collect();
+        let mut out = String::new();
+        let mut i = 0;
+        let (mut quote, mut esc) = (false, false);
+        while i < chars.len() {
+            let c = chars[i];
+            if quote {
+                out.push(c);
+                if esc {
+                    esc = false;
+                } else if c == '\\' {
+                    esc = true;
+                } else if c == '"' {
+                    quote = false;
+                }
+                i += 1;
+                continue;
+            }
+            if c == '"' {
+                quote = true;
+                out.push(c);
+                i += 1;
+                continue;
+            }
+            if matches!(c, '{' | '[' | '(') {
+                // matching close
+                let (mut depth, mut j, mut q, mut e) = (0i32, i, false, false);
+                while j < chars.len() {
+                    let d = chars[j];
+                    if q {
+                        if e {
+                            e = false;
+                        } else if d == '\\' {
+                            e = true;
+                        } else if d == '"' {
+                            q = false;
+                        }
+                    } else if d == '"' {
+                        q = true;
+                    } else if matches!(d, '{' | '[' | '(') {
+                        depth += 1;
+                    } else if matches!(d, '}' | ']' | ')') {
+                        depth -= 1;
+                        if depth == 0 {
+                            break;
+                        }
+                    }
+                    j += 1;
+                }
+                let inner: String = chars[i + 1..j.min(chars.len())].iter().collect();
+                let mut parts: Vec<String> = split_top(&inner).iter().map(|p| norm(p)).collect();
+                if c == '{' {
+                    parts.sort();
+                }
+                out.push(c);
+                out.push_str(&parts.join(", "));
+                if j < chars.len() {
+                    out.push(chars[j]);
+                }
+                i = j + 1;
+                continue;
+            }
+            out.push(c);
+            i += 1;
+        }
+        out
+    }
+    norm(s)
 }
 
 /// field names the error chain mentions (FromPrimitive / MissingEntry)
